@@ -210,7 +210,35 @@ func TestVerifReplay(t *testing.T) {
         ck.record('coordinate_decoding', 'violated', ddetail + '; confirmed on the real build by the families %s' % fam_bad)
         ck.violation('coordinate-decoding', 'public-key coordinates are not decoded as "canonical value below p": ' + ddetail, fam_path)
     elif okd == 'cex':
-        ck.encoder_mismatch('coordinate_decoding', ddetail)
+        # no fixed family hit the misjudged region: build keys around the solver's witness string (an on-curve x at or just
+        # above it) together with a valid (e, r, s) constructed without the private key, and ask the real build
+        wv = int.from_bytes(bytes(dwit), 'big') if dwit is not None else None
+        wrows = []
+        if wv is not None:
+            xs, found = wv, 0
+            while found < 3 and xs < 2 ** 256 and xs - wv < 4000:
+                xr = xs % P
+                rhs = (xr ** 3 - 3 * xr + ref.B) % P
+                ys = pow(rhs, (P + 1) // 4, P)
+                if ys * ys % P == rhs:
+                    s_ = rng.randrange(1, N)
+                    t_ = rng.randrange(1, N)
+                    R_ = ref.add(ref.mul(s_), ref.mul(t_, (xr, ys)))
+                    r_ = (t_ - s_) % N
+                    if R_ is not None and r_ != 0:
+                        e_ = (r_ - R_[0]) % N
+                        wrows.append('{"key x = solver witness + %d", %s, %s, %s, %s, %s, %s},' % (xs - wv, go_bytes(b32(xs)), go_bytes(b32(ys)), go_bytes(b32(e_)), go_bytes(b32(r_)), go_bytes(b32(s_)), 'true' if xs < P else 'false'))
+                        found += 1
+                xs += 1
+        okw = None
+        if wrows:
+            srcw2 = src[:src.index('cases := []struct')] + 'cases := []struct{ name string; px, py, e, r, s []byte; want bool }{\n' + '\n'.join(wrows) + '\n\t}' + src[src.index('\n\tfor i, c := range cases'):]
+            okw, outw, pathw = ck.go_test('sm2', srcw2, name='decoding_witness')
+        if okw is False:
+            ck.record('coordinate_decoding', 'violated', ddetail + '; a key built at the solver witness is judged wrongly by the real build: ' + (outw or '')[-200:].replace('\n', ' '))
+            ck.violation('coordinate-decoding', 'public-key coordinates are not decoded as "canonical value below p": ' + ddetail, pathw)
+        else:
+            ck.encoder_mismatch('coordinate_decoding', ddetail)
     else:
         ck.record('coordinate_decoding', 'inconclusive', ddetail)
 
